@@ -52,22 +52,22 @@ theorem digits_head_pos (n : Nat) (hn : 0 < n) : ∃ c r, digits n = c :: r ∧ 
     · obtain ⟨c, r, hd, h1, h2⟩ := ih (n / 10) (by omega) (by omega)
       exact ⟨c, r ++ [48 + n % 10], by rw [digits_ge10 n h, hd]; rfl, h1, h2⟩
 
-theorem takeWhile_all_append {p : Nat → Bool} : ∀ (a : Str) (c : Nat) (r : Str), (∀ x ∈ a, p x = true) → p c = false →
+theorem takeWhileB_all_append {p : Nat → Bool} : ∀ (a : Str) (c : Nat) (r : Str), (∀ x ∈ a, p x = true) → p c = false →
     (a ++ c :: r).takeWhile p = a
   | [], c, r, _, hc => by simp [List.takeWhile_cons, hc]
   | x :: xs, c, r, ha, hc => by
     simp only [List.cons_append, List.takeWhile_cons, ha x (by simp), if_true]
-    rw [takeWhile_all_append xs c r (fun y hy => ha y (by simp [hy])) hc]
+    rw [takeWhileB_all_append xs c r (fun y hy => ha y (by simp [hy])) hc]
 
-theorem takeWhile_all {p : Nat → Bool} : ∀ (a : Str), (∀ x ∈ a, p x = true) → a.takeWhile p = a
+theorem takeWhileB_all {p : Nat → Bool} : ∀ (a : Str), (∀ x ∈ a, p x = true) → a.takeWhile p = a
   | [], _ => rfl
   | x :: xs, ha => by
     simp only [List.takeWhile_cons, ha x (by simp), if_true]
-    rw [takeWhile_all xs (fun y hy => ha y (by simp [hy]))]
+    rw [takeWhileB_all xs (fun y hy => ha y (by simp [hy]))]
 
 /-- the leading numeral of `str(n)` followed by a character that is not a digit is `str(n)` -/
 theorem takeWhile_digits (n c : Nat) (r : Str) (hc : isDigit c = false) :
     (digits n ++ c :: r).takeWhile isDigit = digits n :=
-  takeWhile_all_append _ c r (digits_all_digit n) hc
+  takeWhileB_all_append _ c r (digits_all_digit n) hc
 
 end Moto
